@@ -844,13 +844,38 @@ def p_tilde_text(case):
     return bool(case.opts.get("strikethrough")) and any(b"~" in t.lit() for t in texts(case.t1))
 
 
+NEXT_LINE_BLOCKS = ("HtmlBlock", "ThematicBreak", "Table")
+
+
+def bare_marker(it):
+    """cm.rs writes nothing after the item's marker on its line: the item has no children, or its first child
+    is a block whose format_* begins with blankline() (format_html_block, format_thematic_break, format_table)"""
+    return not it.ch or it.ch[0].kind in NEXT_LINE_BLOCKS
+
+
+def ends_empty(n):
+    """Python mirror of Spec/RoundTrip.v ends_empty.  n is an item or a list: the last thing the formatter
+    writes for n is the marker of an item without children, i.e. following LAST children from n, through items
+    (whose last child must be a list) and lists, one arrives at an item without children.  format_item writes
+    only cr() when it leaves such an item, and neither format_list nor the enclosing format_item add to it, so
+    need_cr is 1 (no blank line) when the block after n is written."""
+    item, lst = n.kind in ("Item", "TaskItem"), n.kind == "List"
+    if not n.ch:
+        return item
+    if not (item or lst):
+        return False
+    c = n.ch[-1]
+    return (c.kind == "List" or not item) and ends_empty(c)
+
+
 def p_empty_item_blank_line(case):
-    """an item without children leaves no blank line behind: in a loose list, or as the last item of a list
-    that is followed by a sibling"""
+    """an item without children leaves no blank line behind (cr() only).  Stated on the last-child chain
+    (ends_empty): (a) a loose list one of whose items ends in an item without children, or (b) a list that
+    ends in an item without children and is followed by a sibling"""
     for l in case.nodes("List"):
-        if l.f[6] == "0" and any(not it.ch for it in l.ch):
+        if l.f[6] == "0" and any(ends_empty(it) for it in l.ch):
             return True
-        if l.ch and not l.ch[-1].ch and l.next() is not None:
+        if ends_empty(l) and l.next() is not None:
             return True
     return False
 
@@ -872,12 +897,20 @@ _ENTITY = re.compile(rb"&(#[0-9]{1,7}|#[xX][0-9a-fA-F]{1,6}|[A-Za-z][A-Za-z0-9]{
 _BS_PUNCT = re.compile(rb"\\[!-/:-@\[-`{-~]")
 
 
+_HTML6_TAGS = (b"address|article|aside|base|basefont|blockquote|body|caption|center|col|colgroup|dd|details|dialog|dir|div|dl|dt|fieldset|figcaption|figure|footer|form|"
+               b"frame|frameset|h1|h2|h3|h4|h5|h6|head|header|hr|html|iframe|legend|li|link|main|menu|menuitem|nav|noframes|ol|optgroup|option|p|param|search|section|"
+               b"summary|table|tbody|td|tfoot|th|thead|title|tr|track|ul")
+# CommonMark 4.6 start conditions 1-6: the HTML blocks that can interrupt a paragraph
+_HTML_BLOCK_START_1_6 = re.compile(rb"^ {0,3}(<(script|pre|style|textarea)([ \t>]|$)|<!--|<\?|<![A-Za-z]|<!\[CDATA\[|</?(" + _HTML6_TAGS + rb")([ \t>]|/>|$))", re.I)
+
+
 def p_html_inline_multiline(case):
-    """an inline HTML literal spans lines and one of its continuation lines starts like a block, or with
+    """an inline HTML literal spans lines and one of its continuation lines starts like a block (a container or
+    leaf block marker, or an HTML block of start conditions 1-6, which interrupt a paragraph), or with
     indentation (kept in the literal on the first parse, stripped as paragraph indentation on the second)"""
     for n in case.nodes("HtmlInline"):
         ls = n.lit().split(b"\n")
-        if any(_BLOCK_START.match(l) or l[:1] in (b" ", b"\t") for l in ls[1:]):
+        if any(_BLOCK_START.match(l) or _HTML_BLOCK_START_1_6.match(l) or l[:1] in (b" ", b"\t") for l in ls[1:]):
             return True
     return False
 
@@ -921,14 +954,13 @@ def p_info_unescaped(case):
 
 
 def p_nested_empty_items_hr(case):
-    """bullet items nested as first children at least three deep ending in an empty item, or in an item
-    whose first block is an HTML block (written on the next line), are spelled `- - - ` (or `* * * `)
-    alone on a line: a thematic break"""
+    """bullet items nested as first children at least three deep ending in an item after whose marker nothing
+    is written on the line (bare_marker: no children, or a first block that begins with blankline(): HTML
+    block, thematic break, table) are spelled `- - - ` (or `* * * `) alone on a line: a thematic break"""
     if case.opts.get("list_style") == "plus":
         return False
     for it in case.nodes("Item"):
-        # empty, or starting with a block the formatter begins on the line AFTER the markers (HTML block)
-        if (it.ch and it.ch[0].kind != "HtmlBlock") or it.parent.f[0] != "b":
+        if not bare_marker(it) or it.parent.f[0] != "b":
             continue
         d, n = 1, it
         while n.parent.prev() is None and n.parent.parent is not None and n.parent.parent.kind == "Item" and n.parent.parent.parent.f[0] == "b" and n.parent.parent.ch[0] is n.parent:
@@ -937,6 +969,12 @@ def p_nested_empty_items_hr(case):
         if d >= 3:
             return True
     return False
+
+
+def p_loose_single_block_list(case):
+    """a loose list with one item that has one block: cm.rs spells looseness only through the blank lines that
+    blocks leave between items and between the blocks of an item, and here there is no such place"""
+    return any(l.f[6] == "0" and len(l.ch) == 1 and len(l.ch[0].ch) == 1 for l in case.nodes("List"))
 
 
 def p_ol_width_first_block(case):
@@ -1016,17 +1054,73 @@ def _in_tight_item(n):
 
 
 def p_tight_item_quote_then_para(case):
-    """inside an item of a tight list the block that follows a block quote (after the lists it closes) is a
-    paragraph or another block quote: the blank line is capped to one newline, so the paragraph becomes a lazy
-    continuation of the quote / the two quotes merge"""
+    """inside an item of a tight list the block that follows a block quote (after the lists it closes) begins
+    with a line that can continue a paragraph lazily (a paragraph, a table: its header row, a code block written
+    in the indented form) or is another block quote: the blank line is capped to one newline, so that line
+    becomes a lazy continuation of the quote / the two quotes merge"""
     for q in case.nodes("BlockQuote"):
         n = q
         while n.next() is None and n.parent is not None:
             n = n.parent
         x = n.next()
-        if x is not None and x.kind in ("Paragraph", "BlockQuote") and _in_tight_item(x):
+        if x is not None and _in_tight_item(x) and (x.kind in ("Paragraph", "BlockQuote", "Table") or (x.kind == "CodeBlock" and written_indented(x, case.opts))):
             return True
     return False
+
+
+def nearest_item_tight(n):
+    """the closest enclosing Item/TaskItem of n belongs to a tight list"""
+    for a in n.ancestors():
+        if a.kind in ("Item", "TaskItem"):
+            return a.parent.f[6] == "1"
+    return False
+
+
+def p_tight_item_blank_line_in_quote(case):
+    """inside an item of a tight list, two consecutive blocks of a container other than the item itself (a
+    block quote) that only a blank line keeps apart: paragraph + paragraph, paragraph + HTML block of start
+    condition 7 (cannot interrupt a paragraph), table + paragraph or table (the line becomes a table row).
+    in_tight_list_item stays set for everything below the item, and output() caps every need_cr to 1 there"""
+    for b in case.nodes(("Paragraph", "HtmlBlock", "Table")):
+        a = b.prev()
+        if a is None or b.parent.kind in ("Item", "TaskItem", "Document") or not nearest_item_tight(b):
+            continue
+        if a.kind == "Paragraph" and (b.kind == "Paragraph" or (b.kind == "HtmlBlock" and b.f[0] == "7")):
+            return True
+        if a.kind == "Table" and b.kind in ("Paragraph", "Table"):
+            return True
+    return False
+
+
+def p_amp_before_text_node(case):
+    """a Text literal ends in `&` and the next sibling is a Text node that completes a named entity (adjacent
+    Text nodes exist inside links and images: postprocess_text_nodes does not recurse into them).  outc looks
+    for a letter after `&` only inside the buffer of ONE node (nextc = buf.get(i + 1)), so this `&` is written bare"""
+    for t in texts(case.t1):
+        nx = t.next()
+        if t.lit().endswith(b"&") and nx is not None and nx.kind == "Text" and re.match(rb"^[A-Za-z][A-Za-z0-9]{1,31};", nx.lit()):
+            return True
+    return False
+
+
+def p_emph_in_emph_same_delim(case):
+    """an Emph that is a child of an Emph and has a sibling: format_emph alternates to `_` only for an Emph that is
+    the ONLY child of an Emph, so inner and outer delimiters are both `*` and the inner opening run, between two
+    non-space characters, is also a closer for the outer one (`*a*z* l*`)"""
+    return any(e.parent is not None and e.parent.kind == "Emph" and len(e.parent.ch) > 1 for e in case.nodes("Emph"))
+
+
+def p_table_cell_title_newline(case):
+    """a link or image inside a table cell whose title holds a newline (possible through a reference definition):
+    it is written raw and ends the table row"""
+    return any(b"\n" in l.lit(1) and under(l, ("TableCell",)) for l in case.nodes(("Link", "Image")))
+
+
+def p_title_newline_space(case):
+    """a link or image title holds a newline followed by a space or tab (a lazy continuation line keeps its
+    indentation): the Title mode of outc pushes the newline without setting begin_line, the spaces then sit at
+    the start of an output line, where the next parse strips them as indentation of the container"""
+    return any(re.search(rb"\n[ \t]", l.lit(1)) for l in case.nodes(("Link", "Image")))
 
 
 def p_tight_item_para_then_indented_code(case):
@@ -1063,9 +1157,11 @@ def p_table_cell_wrap(case):
 
 
 def p_end_list_after_empty_item(case):
+    """C17: a list that ends (ends_empty: following last children through nested lists) in an item without
+    children, directly followed by a list or a code block: the end-of-list comment is written after cr() only"""
     for l in case.nodes("List"):
         nx = l.next()
-        if nx is not None and nx.kind in ("List", "CodeBlock") and l.ch and not l.ch[-1].ch:
+        if nx is not None and nx.kind in ("List", "CodeBlock") and ends_empty(l):
             return True
     return False
 
@@ -1215,6 +1311,12 @@ CLASSES = {
     "task_item_non_paragraph_first": _c(p_task_item_non_paragraph_first),
     "end_list_comment_in_container": _c(p_end_list_comment_in_container),
     "end_list_after_empty_item": _c(p_end_list_after_empty_item),
+    "loose_single_block_list": _c(p_loose_single_block_list),
+    "tight_item_blank_line_in_quote": _c(p_tight_item_blank_line_in_quote),
+    "amp_before_text_node": _c(p_amp_before_text_node),
+    "title_newline_space": _c(p_title_newline_space),
+    "emph_in_emph_same_delim": _c(p_emph_in_emph_same_delim),
+    "table_cell_title_newline": _c(p_table_cell_title_newline),
 }
 
 
@@ -1233,7 +1335,7 @@ KIND_ORDER = ["Document", "FrontMatter", "BlockQuote", "List", "Item", "Descript
               "FootnoteReference", "Math", "MultilineBlockQuote", "Escaped", "WikiLink", "Underline", "Subscript", "SpoileredText", "EscapedTag", "Alert"]
 # classes whose predicate is ALSO extracted from Spec/RoundTrip.v (tree_classes, in this order); the check
 # evaluates the extracted predicate and requires it to agree with the Python one on every shrunk case
-COQ_CLASSES = ["tilde_text", "empty_dest_title", "heading_softbreak", "nested_link", "empty_item_blank_line", "end_list_after_empty_item", "ol_width_code"]
+COQ_CLASSES = ["tilde_text", "empty_dest_title", "heading_softbreak", "nested_link", "empty_item_blank_line", "end_list_after_empty_item", "ol_width_code", "loose_single_block_list"]
 # classes decided from both outputs (Python only)
 OUTPUT_CLASSES = ["wrap_whitespace", "amp_escape_unstable", "raw_html_pre_ws", "wrap_marker_line_start", "wrap_tilde_fence_line_start", "wrap_html_line_start"]
 
